@@ -40,6 +40,25 @@ pub fn chain_spec(label: &str, enc: [Enc; 3], fee_rate: u16, protocol_fee_rate: 
     }
 }
 
+/// The chain layout moved to another region of the price axis: `origin` must be a multiple of 5632 (one tick array at
+/// spacing 64). Far from price 1 the two tokens' amounts differ by orders of magnitude (at origin = -112640 one unit of
+/// liquidity is worth ~280x more token A than token B), which exercises other magnitudes of every amount computation.
+pub fn chain_spec_at(label: &str, enc: [Enc; 3], fee_rate: u16, protocol_fee_rate: u16, origin: i32) -> StdSpec {
+    assert_eq!(origin % 5632, 0);
+    let k = origin / 5632;
+    StdSpec {
+        label: label.into(),
+        tick_spacing: 64,
+        fee_rate,
+        protocol_fee_rate,
+        sqrt_price: whirlpool::math::sqrt_price_from_tick_index(origin),
+        arrays: vec![(k - 1, enc[0]), (k, enc[1]), (k + 1, enc[2])],
+        positions: vec![(origin - 128, origin + 128, true), (origin + 128, origin + 320, false), (origin + 320, origin + 5696, false)],
+        t22_a: None,
+        t22_b: None,
+    }
+}
+
 pub fn chain_roots() -> Vec<(&'static str, Vec<Op>)> {
     let fund = vec![
         Op::Inc { pos: 0, liq: BIG, v2: true },
@@ -208,6 +227,23 @@ pub fn swap_alphabet() -> Vec<Op> {
         }
     }
     a
+}
+
+/// Alphabets name reposition targets relative to tick 0; worlds laid out around another origin shift them.
+pub fn shift_repos(ops: Vec<Op>, origin: i32) -> Vec<Op> {
+    ops.into_iter()
+        .map(|o| match o {
+            Op::Repos { pos, lower, upper, liq } => Op::Repos { pos, lower: lower + origin, upper: upper + origin, liq },
+            x => x,
+        })
+        .collect()
+}
+/// origin of a chain / std world = middle of position 0's range (0 for the worlds around price 1)
+pub fn origin_of(w: &crate::world::StdWorld) -> i32 {
+    if w.pool.tick_spacing != 64 || w.positions.is_empty() {
+        return 0;
+    }
+    (w.positions[0].lower + w.positions[0].upper) / 2
 }
 
 pub struct Built {
